@@ -304,7 +304,24 @@ func c02r3(rc *core.RC) {
 		// is it in the else-chain of the `field != nil` test?
 		inUnknown := false
 		for _, c := range condChainNodes(fd, call) {
-			if !c.pos && strings.Contains(core.Src(p.Fset, c.cond), "field != nil") {
+			// the test of the looked-up field set against nil, whatever the variable is called
+			be, isCmp := core.Unparen(c.cond).(*ast.BinaryExpr)
+			if !isCmp || (be.Op != token.NEQ && be.Op != token.EQL) {
+				continue
+			}
+			var other ast.Expr
+			if id, ok := core.Unparen(be.Y).(*ast.Ident); ok && id.Name == "nil" {
+				other = be.X
+			} else if id, ok := core.Unparen(be.X).(*ast.Ident); ok && id.Name == "nil" {
+				other = be.Y
+			}
+			if other == nil {
+				continue
+			}
+			if t := info.TypeOf(other); t == nil || !strings.HasSuffix(t.String(), "decoder.structFieldSet") {
+				continue
+			}
+			if (be.Op == token.NEQ && !c.pos) || (be.Op == token.EQL && c.pos) {
 				inUnknown = true
 			}
 		}
@@ -319,11 +336,15 @@ func c02r3(rc *core.RC) {
 			if !ok {
 				return true
 			}
-			if f := core.FieldOf(info, ifs.Cond); f == nil || f.Name() != "DisallowUnknownFields" {
+			gcond, flip := stripNot(ifs.Cond)
+			if f := core.FieldOf(info, gcond); f == nil || f.Name() != "DisallowUnknownFields" {
 				return true
 			}
 			gb, _ := cf.BlockOf(ifs.Cond)
-			tb, _ := core.IfEdges(gb)
+			tb, fb := core.IfEdges(gb)
+			if flip {
+				tb = fb
+			}
 			if gb != nil && cb != nil && cf.Dominates(gb, cb) && tb != nil && cf.AllPathsReturnError(tb, nil) {
 				guarded = true
 			}
@@ -1026,34 +1047,29 @@ func c02r8(rc *core.RC) {
 			rc.Touch(fn)
 			key := fmt.Sprintf("%s/field-err#%d only-for-nil-pointer", fn, k)
 			guarded := false
-			path := core.PathTo(fd.Body, r)
-			for i := len(path) - 1; i >= 0; i-- {
-				ifs, isIf := path[i].(*ast.IfStmt)
-				if !isIf {
-					continue
+			for _, c := range condChainNodes(fd, r) {
+				// positive branch: a conjunct `*(…offset…) == nil`; negative branch: a disjunct `*(…offset…) != nil`
+				parts, want := conjuncts(c.cond), token.EQL
+				if !c.pos {
+					parts, want = disjuncts(c.cond), token.NEQ
 				}
-				ast.Inspect(ifs.Cond, func(x ast.Node) bool {
-					be, isBin := x.(*ast.BinaryExpr)
-					if !isBin || be.Op != token.EQL || !core.IsNilIdent(info, be.Y) {
-						return true
+				for _, part := range parts {
+					be, isBin := core.Unparen(part).(*ast.BinaryExpr)
+					if !isBin || be.Op != want || !core.IsNilIdent(info, be.Y) {
+						continue
 					}
-					// *(*unsafe.Pointer)(… field.offset …) == nil
+					// *(*unsafe.Pointer)(… field.offset …)
 					if st, isStar := core.Unparen(be.X).(*ast.StarExpr); isStar {
-						mentionsOffset := false
 						ast.Inspect(st, func(y ast.Node) bool {
 							if e, isExpr := y.(ast.Expr); isExpr {
 								if f := core.FieldOf(info, e); f != nil && f.Name() == "offset" {
-									mentionsOffset = true
+									guarded = true
 								}
 							}
 							return true
 						})
-						if mentionsOffset {
-							guarded = true
-						}
 					}
-					return true
-				})
+				}
 			}
 			rc.Check(guarded, key, r.Pos(), "the refusal to set an embedded pointer to an unexported struct is returned only under a test that the pointer at the field's offset is nil")
 			return true
